@@ -9,6 +9,7 @@ SOURCE_COMMITS = [
     '1678162 fix: do not overflow the RollSum sums for large hash windows',
     '0b48bc8 fix: reject a dictionary size whose header region would overflow',
     'e429ce3 fix: reject chunk descriptors whose archive range does not fit in an offset',
+    '65b834a fix: do not divide by zero when printing info of an archive without chunks',
 ]
 NOTES = ("Every check is decided by a SAT solver over the compiled real code within stated bounds (see DESIGN.md); "
          "exit 2 + an INCONCLUSIVE line means time-out / out of memory / vacuous harness / mirror edit not applicable -- never a pass, never a violation. "
@@ -62,9 +63,9 @@ CLAIMED["C02"] = {
     "note": "Reduced scope: seed re-chunking/hashing and all CLI stages are not executable; feed is decided compositionally (see C13). Model map instead of std HashMap.",
     "technique": TECH}
 CLAIMED["C13"] = {
-    "text": "Write step decided for all offsets/data: per destination one seek to exactly that offset followed by all of the chunk's bytes, once; feed itself (hit and miss path, over a scripted write loop): the write loop is entered exactly once iff the truncated hashes agree, with all of the entry's offsets and the fed chunk, the entry is removed (so each location is written at most once: a duplicate feed writes nothing), unrelated entries untouched.",
+    "text": "Write step decided for all offsets/data: per destination one seek to exactly that offset followed by all of the chunk's bytes, once; feed itself, hit and miss path -- over a scripted write loop (glue) and, de-sugared to a plain function, as ONE unit over the real lookup and the real write loop on a file of symbolic bytes: written exactly once iff the truncated hashes agree, all of the chunk's bytes at all of the entry's offsets, the entry is removed (so each location is written at most once: a duplicate feed writes nothing), unrelated entries and the rest of the file untouched.",
     "design_ref": "DESIGN.md section 4 (C02/C13/C05)",
-    "note": "Reduced scope: CloneOutput::feed over the REAL write loop as one unit does not get through CBMC (nested coroutines); it is decided compositionally: feed's own text over a scripted write loop (c13_feed_glue_*: entered once iff hit, with exactly the entry's offsets and the fed chunk, result handed on, entry gone, duplicate writes nothing), the real write loop on its own, and both real functions in feed's order. In-place stripping and the source-length bound are not executed (see C03).",
+    "note": "Reduced scope: CloneOutput::feed as a COROUTINE over the real write loop does not get through CBMC; it is decided (a) as one unit in a generated copy where async fn -> fn and .await -> a single poll that must be ready (always-ready mocks; Pending interleavings excluded), and (b) compositionally: feed's own text over a scripted write loop (c13_feed_glue_*: entered once iff hit, with exactly the entry's offsets and the fed chunk, result handed on, entry gone, duplicate writes nothing), the real write loop on its own, and both real functions in feed's order. In-place stripping and the source-length bound are not executed (see C03).",
     "technique": TECH}
 CLAIMED["C05"] = {
     "text": "Fault step: the k-th seek or write fails, or the k-th write accepts only a prefix (k, prefix symbolic) => write_offset returns Err, never Ok with fewer bytes than the chunk on the output; bytes that did land are contiguous from the destination. All fault points inside the bound are covered by one query.",
